@@ -342,6 +342,10 @@ func runZip(ctx *Ctx) {
 			}
 			used[p] = true
 			content := []string{"", "hello", "\x00\x01\xff", "line\nline"}[r.Intn(4)]
+			if r.Chance(1, 25) {
+				// larger than any copy buffer (32 KiB) and not a multiple of it
+				content = strings.Repeat("0123456789abcdef-", 4099)
+			}
 			tree = append(tree, zh(p)+":"+zh(content))
 		}
 		ts := "-"
